@@ -1420,9 +1420,12 @@ impl SvgElement {
     pub fn expand_compound_pos(&mut self) {
         // NOTE: must have already done any relative positioning (e.g. `xy="#abc|h"`)
         // before this point as xy is not considered a compound attribute in that case.
+        // `xy-loc` says which point `xy` positions; it is dropped with it, and ignored
+        // (not left on the element) when the position is spelled another way
+        let xy_loc = self.pop_attr("xy-loc");
         if let Some(xy) = self.pop_attr("xy") {
             let (x, y) = Self::split_compound_attr(&xy);
-            let (x_attr, y_attr) = match self.pop_attr("xy-loc").as_deref() {
+            let (x_attr, y_attr) = match xy_loc.as_deref() {
                 Some("t") => ("cx", "y1"),
                 Some("tr") => ("x2", "y1"),
                 Some("r") => ("x2", "cy"),
